@@ -112,16 +112,16 @@ add("C21", "generated serdes programs interpreted by a reference interpreter (ro
     "byte_align only outside blocks; blocks not nested.")
 add("C22", "generated regular video formats x every picture generator; validity predicate",
     "Exploration: regular formats over sizes, subsampling, scan/coding modes, signal ranges, colour specs x all synthetic generators: count, numbering, exact sizes, int samples in range.",
-    "Regular formats only (property's own domain).", ready=False)
+    "Regular formats only (property's own domain).", ready=True)
 add("C23", "generated pictures/metadata: file round trip + comparison tool vs own difference count",
     "Exploration: formats with depths 1-64, extremes, picture numbers to 2^32-1; write/read identity, file size, and picture-compare exit codes/counts vs the harness' own.",
-    "Scripts driven through main() in-process.", ready=False)
+    "Scripts driven through main() in-process.", ready=True)
 add("C27", "stateful model-based testing of every fixeddict type vs a model dict; pickle/deepcopy round trips",
     "Exploration: rule-based machines over all library fixeddict types with declared and undeclared keys (construction, item assignment, setdefault, update, |=, copy, del/pop/clear, pickle protocols 0-5).",
     "Two-argument setdefault only.", ready=False)
 add("C28", "grammar/mutation-based CSV generation vs documented-domain predicate",
     "Exploration: cell/row/column mutations of the sample CSVs and random CSV through the CLI's file mode: result in documented domain or InvalidCodecFeaturesError, nothing else.",
-    "Text handed over through a file opened as the CLI does.", ready=False)
+    "Text handed over through a file opened as the CLI does.", ready=True)
 
 ALL = ["C%02d" % i for i in range(1, 29)]
 
